@@ -103,7 +103,7 @@ func withReopens(rt *rapid.T, ops []hist.Op) []hist.Op {
 }
 
 func TestRestartRandomMem(t *testing.T) {
-	pbt.Check(t, 600, 60000, func(rt *rapid.T) {
+	pbt.Check(t, 600, 30000, func(rt *rapid.T) {
 		c := RestartCase{Store: "mem", Ops: withReopens(rt, hist.GenHistory(rt, 20, true))}
 		if pbt.WantSample(rt) {
 			pbt.Sample(rt, histrun.Text(c.Ops))
